@@ -63,6 +63,10 @@ def run(chk):
         return
     for b in (tv, fs, ii, fr, nw):
         chk.touched(b)
+    # analysed through their inlined views: private helpers (read_array, set_serialized_extensions ...) are part of them
+    from . import inline
+    keep12 = (lambda cal: any(names.is_(cal.path, n) for n in ("AttestedCredentialData::from_reader", "AttestedCredentialData::into_iter", "AttestedCredentialData::new")),)
+    tv, fs, ii, fr, nw = (inline.inlined(p, b, keep=keep12) for b in (tv, fs, ii, fr, nw))
 
     # ---------------- R1
     S = summary.Summaries(p)
@@ -170,7 +174,8 @@ def run(chk):
         chk.ob("R2 reader = writer", "R2|from_slice|pieces", bool(ok), where(fs), "rp_id_hash <- %s, flags <- %s, counter <- %s" % (ph[:1], pf[:1], pc[:1]))
     # from_reader: read_exact sizes in order
     ivr = intervals.Intervals(p, fr)
-    reads = sorted(names.calls_to(fr, "Read::read_exact"), key=lambda x: x[1]["line"] * 1000 + x[0])
+    order = fr.rpo()
+    reads = sorted(names.calls_to(fr, "Read::read_exact"), key=lambda x: order.get(x[0], 10**6))
     sizes = []
     Tr = flow.Terms(p, fr)
     for bb, t in reads:
@@ -192,8 +197,10 @@ def run(chk):
     for nm, v in FLAGS.items():
         c = p.consts.get("passkey_types::ctap2::flags::Flags::" + nm)
         chk.ob("R3 flags", "R3|bit|%s" % nm, c is not None and c.get("bits") == str(v), "passkey_types::ctap2::flags::Flags::" + nm, "Flags::%s = %s (WebAuthn: 0x%02x)" % (nm, c.get("bits") if c else "missing", v))
-    fb = [t for bb, t in fs.calls() if names.call_is(t, "Flags::from_bits")]
-    lax = [core.callee_of(t) for bb, t in fs.calls() if names.call_is(t, "Flags::from_bits_truncate", "Flags::from_bits_retain")]
+    # the flag byte goes through the rejecting constructor — directly or through a workspace conversion that calls it
+    fs_closure = [fs] + [b for b in p.call_closure([p.method(AD, "from_slice")]).values() if b.path != fs.path]
+    fb = [t for b in fs_closure for bb, t in b.calls() if names.call_is(t, "Flags::from_bits")]
+    lax = [core.callee_of(t) for b in fs_closure for bb, t in b.calls() if names.call_is(t, "Flags::from_bits_truncate", "Flags::from_bits_retain")]
     chk.ob("R3 flags", "R3|from_slice|rejecting-from_bits", len(fb) == 1 and not lax, where(fs), "Flags::from_bits: %d, truncating/retaining constructors: %s" % (len(fb), lax))
     tff = p.method("passkey_types::ctap2::flags::Flags", "try_from", trait="core::convert::TryFrom")
     if chk.require("R3 flags", "R3|TryFrom<u8>", tff, "Flags", "TryFrom<u8> for Flags not found"):
@@ -251,8 +258,15 @@ def run(chk):
     sa = p.method(AD, "set_attested_credential_data")
     if sa is not None:
         chk.touched(sa)
-        o = S.local_outcomes(sa)
-        ok = len(o) == 1 and has(o[0].value, lambda x: is_call(x, "AuthenticatorData::set_flags")) and has(o[0].value, lambda x: isinstance(x, tuple) and len(x) == 4 and x[0] == "agg" and x[2] == "Some")
+        o = normal.rows(S, sa, N)
+        ok = len(o) == 1
+        if ok:
+            v = N.inline(o[0].value)
+            w = v if v[0] == "with" else None
+            ups = dict(w[2]) if w else {}
+            fl = ups.get(("flags",))
+            base, added = flow.flag_delta(fl) if fl is not None else (None, set())
+            ok = w is not None and w[1] == ("param", 1) and ups.get(("attested_credential_data",)) == normal.some(("param", 2)) and added == {"AT"} and base == ("field", ("param", 1), "flags") and set(ups) == {("flags",), ("attested_credential_data",)}
         chk.ob("R3 flags", "R3|AT|with-section", ok, where(sa), "set_attested_credential_data = %s" % [flow.term_str(x.value)[:200] for x in o])
     for b, bb in users["AT"]:
         if api_name(b).endswith("to_vec"):
@@ -335,10 +349,11 @@ def run(chk):
     chk.ob("R3 flags", "R3|from_slice|section-errors-propagated", all(prop.values()), where(fs), "a failing section reader ends the parse with its own error: %s" % prop)
 
     # ---------------- R4
-    o = S.local_outcomes(nw)
+    o = normal.rows(S, nw, N, expand=False)
     oks = [x for x in o if x.variant[:1] == ("Ok",)]
-    ok = len(oks) == 1 and any(t[0] == "discr" and t[1][0] == "try" and has(t, lambda y: is_call(y, "TryFrom::try_from")) and has(t, lambda y: is_call(y, "Vec::len")) and l == ("in", "0") for t, l, fn, w in oks[0].conds)
-    u16 = any("u16" in (t.get("callee_full") or "") for bb, t in nw.calls() if names.call_is(t, "TryFrom::try_from"))
+    is_conv = lambda y: (is_call(y, "TryFrom::try_from") or is_call(y, "TryInto::try_into")) and has(y, lambda z: is_call(z, "Vec::len") or is_call(z, "slice::len"))
+    ok = len(oks) >= 1 and all(any(flow.asserts_ok(t, l, is_conv) for t, l, fn, w in x.conds) for x in oks)
+    u16 = any("u16" in (t.get("callee_full") or "") for bb, t in nw.calls() if names.call_is(t, "TryFrom::try_from", "TryInto::try_into"))
     chk.ob("R4 length refusal", "R4|new|u16-guard", ok and u16, where(nw), "Ok rows: %s" % [x.cond_strs() for x in oks])
     f = field_ty(p, ACD, "credential_id")
     chk.ob("R4 length refusal", "R4|credential_id-private", f is not None and not f["pub"], ACD, "field visibility: %s" % (f["vis"] if f else "?"))
@@ -347,7 +362,7 @@ def run(chk):
         if b.crate != "passkey_types" and not find_aggs(b, "AttestedCredentialData"):
             continue
         if find_aggs(b, "AttestedCredentialData"):
-            ctors.append(api_name(b))
+            ctors.append(api_name(p.bodies.get(b.root) or b))  # a closure counts as its enclosing function
     ctors = sorted(set(c for c in ctors if "Clone" not in c and "clone" not in c))
     chk.ob("R4 length refusal", "R4|constructors", ctors == ["AttestedCredentialData::from_reader", "AttestedCredentialData::new"], ACD, "functions constructing AttestedCredentialData: %s" % ctors)
     chk.floor("R1", 10)
